@@ -79,7 +79,12 @@ def sub_pattern(rng, v, labels):
         n = rng.randint(1, len(ks))
         if n < len(ks):
             labels.add('pat:partial-map')
-        return {k: (sub_pattern(rng, v[k], labels) if rng.random() < 0.4 else clone(v[k])) for k in rng.sample(ks, n)}
+        out = {k: (sub_pattern(rng, v[k], labels) if rng.random() < 0.4 else clone(v[k])) for k in rng.sample(ks, n)}
+        if rng.random() < 0.08:
+            # an inverted sub-pattern on a key the entry does not have (a missing key is not a map: the inversion holds)
+            out[rng.choice(['nokey1', 'nokey2'])] = {'$invert': True, 'zz': 1}
+            labels.add('pat:nested-invert-missing-key')
+        return out
     if isinstance(v, list) and v:
         n = rng.randint(1, len(v))
         if n < len(v):
